@@ -15,6 +15,7 @@ Lemma csend_asdu_kinv now c a : kinv c -> kinv (fst (fst (csend_asdu now c a))) 
 Proof.
   intros H. unfold csend_asdu. destruct (running c); [|split; [exact H | reflexivity]].
   destruct (ckfull c) eqn:F; [split; [exact H | reflexivity]|].
+  destruct (cwmode c =? 0); [|split; [exact H | reflexivity]].
   unfold ckfull in F. rewrite Z.geb_leb in F. apply Z.leb_gt in F. unfold csend_i. cbn. split; [|reflexivity].
   unfold kinv, lenkb in *. cbn. rewrite app_length. cbn [length]. lia.
 Qed.
@@ -22,9 +23,13 @@ Qed.
 (* a refused send transmits nothing and changes nothing; it is refused exactly while the window is full (or not connected) *)
 Lemma csend_asdu_refused now c a : running c = true -> ckfull c = true -> csend_asdu now c a = (c, false, []).
 Proof. intros R F. unfold csend_asdu. rewrite R, F. reflexivity. Qed.
-Lemma csend_asdu_accepted now c a : running c = true -> ckfull c = false ->
-  csend_asdu now c a = (fst (csend_i now c a), true, [CTx (enc_i (cvs c) (cvr c) a) (cwmode c =? 0)]).
-Proof. intros R F. unfold csend_asdu. rewrite R, F. reflexivity. Qed.
+Lemma csend_asdu_accepted now c a : running c = true -> ckfull c = false -> cwmode c = 0 ->
+  csend_asdu now c a = (fst (csend_i now c a), true, [CTx (enc_i (cvs c) (cvr c) a) true]).
+Proof. intros R F W. unfold csend_asdu, csend_i, cwr. rewrite R, F, W. reflexivity. Qed.
+(* the socket takes nothing: the call reports failure, nothing is sent, no sequence number is used up, the window is unchanged *)
+Lemma csend_asdu_not_written now c a : running c = true -> ckfull c = false -> cwmode c <> 0 ->
+  csend_asdu now c a = (c, false, [CTx (enc_i (cvs c) (cvr c) a) false]).
+Proof. intros R F W. unfold csend_asdu, cwr. rewrite R, F. apply Z.eqb_neq in W. rewrite W. reflexivity. Qed.
 
 Lemma ccheck_nr_kinv c nr c' : ccheck_nr c nr = Some c' -> kinv c -> kinv c' /\ ckmax c' = ckmax c.
 Proof.
